@@ -55,3 +55,12 @@ package abci
 //@   ensures !result ==> s.proposal.resultsBeginBlock == old(s.proposal.resultsBeginBlock) && s.proposal.resultsEndBlock == old(s.proposal.resultsEndBlock)
 //@   ensures result ==> s.proposal != nil && s.proposal.resultsBeginBlock == nil && s.proposal.resultsDeliverTx == nil && s.proposal.resultsEndBlock == nil
 //@   note cached execution results survive into BeginBlock/DeliverTx/EndBlock only if the block's hash equals the hash of the proposal they were computed for; otherwise the block is (re-)executed from the canonical state
+
+// ---- state pruner (C06): never prune inside the keep-N window ----
+
+//@ func genericPruner.Prune
+//@   props C06
+//@   requires p != nil && latestVersion <= 9223372036854775807
+//@   precall db/api\.NodeDB\)\.Prune$ :: latestVersion >= old(p.keepN) && argAs[uint64](0) < preserveFrom && int(preserveFrom) + int(old(p.keepN)) == int(latestVersion) && ufr[error]("canPrune", p, int64(argAs[uint64](0))) == nil
+//@   precall db/api\.NodeDB\)\.Sync$ :: true
+//@   note a version is handed to NodeDB.Prune only if it is more than keepN versions behind the latest one and every registered prune handler allowed it
